@@ -57,7 +57,7 @@ def prune(prefix, keep):
     now = time.time()
     for d in ds[keep:]:
         # never remove a directory another (concurrent) check may still be running or replaying from
-        if ".tmp" in os.path.basename(d) or now - os.path.getmtime(d) < 3 * 3600: continue
+        if ".tmp" in os.path.basename(d) or now - os.path.getmtime(d) < 900: continue
         shutil.rmtree(d, ignore_errors=True)
 
 def main():
